@@ -41,6 +41,9 @@ pub struct CoDevice {
     /// Serve from the spin hook as well as from notifications.
     pub poll_on_spin: bool,
     pub interrupts: u32,
+    /// Queues on which the device suppresses available-buffer notifications (flag form without
+    /// event index, a far-away event index with it) and which it polls instead.
+    pub suppressed: Vec<u16>,
 }
 
 pub type CoRc = Rc<RefCell<CoDevice>>;
@@ -60,6 +63,7 @@ impl CoDevice {
             livelock: None,
             poll_on_spin: true,
             interrupts: 0,
+            suppressed: vec![],
         }))
     }
 
@@ -117,11 +121,23 @@ impl CoDevice {
                 }
             }
         }
+        let sup = self.suppressed.contains(&q);
+        let rq = self.queues.get_mut(&q).unwrap();
         if event_idx {
-            let rq = self.queues.get_mut(&q).unwrap();
             let la = rq.last_avail;
-            let _ = rq.set_avail_event(la);
+            let _ = rq.set_avail_event(if sup { la.wrapping_add(0x4000) } else { la });
+        } else if sup || rq.used_flags_written {
+            let _ = rq.set_used_flags(sup as u16);
+            rq.used_flags_written = true;
         }
+    }
+
+    /// Entries the driver has made available on queue `q` which the device has not fetched.
+    pub fn unfetched(&mut self, q: u16) -> u16 {
+        if !self.sync_queue(q) {
+            return 0;
+        }
+        self.queues.get(&q).and_then(|r| r.pending().ok()).unwrap_or(0)
     }
 
     pub fn complete(&mut self, q: u16, chain: &Chain, data: &[u8], len: u32) {
